@@ -11,7 +11,8 @@ CONSTANTS
   MRSet = {0, 1, 2}
   MaxCuts = 2
   ClassSet = {"bnd", "field", "name", "id", "idfull", "data", "datafull"}
-  AnswerSet = {"terr", "ok", "5xx", "404"}
+  AnswerSet = {"terr", "ok", "503", "404"}
+  TailSet = {"good", "stuck"}
   FixScanner = FALSE
   FixCursor = TRUE
   Fix5xx = TRUE
